@@ -1,0 +1,115 @@
+//go:build verif
+
+package scope
+
+// Machine-checked contracts for /verif (gowp). Comment-only file: it adds no code.
+// Event ids (app/consts.go): Kill=0 Stop=1 Error=2 BeforeCommit=3 Commit=4 AfterCommit=5
+// BeforeRollback=6 Rollback=7 AfterRollback=8 BeforeClose=9 AfterClose=10.
+
+//@ global github.com/goatcms/goatcore/app/scope.ErrDoned nonnil
+
+// The context is fixed at construction; the other parts are dropped by close() and by nothing
+// outside this package (listeners are assumed not to close the scope they are called from).
+//@ type Scope
+//@   field ContextScope immutable
+//@   field cid immutable
+//@   field sid immutable
+//@   field EventScope stable
+//@   field DataScope stable
+//@   field Injector stable
+//@   field parent stable
+//@   field closed stable
+//@   field closeStack stable
+
+// ---- C11: close protocol ----
+// Close: before-close, wait, then exactly one of the commit / rollback triples chosen by the
+// error state returned by Wait, after-close, sign-off from the parent iff there is one, and
+// the value returned is Err() evaluated after all of that. A closed scope panics first.
+//@ func (*Scope).Close [C11 C12]
+//@   requires scp.EventScope != nil && scp.ContextScope != nil
+//@   trace Trigger as T:$0
+//@   trace (*Scope).Wait as WAIT bind waitErr
+//@   trace DoneTask as SIGNOFF
+//@   trace (*Scope).Err as ERR bind finalErr
+//@   trace_ensures waitErr == nil && old(scp.parent) == nil : ^T:9 WAIT T:3 T:4 T:5 T:10 ERR $
+//@   trace_ensures waitErr == nil && old(scp.parent) != nil : ^T:9 WAIT T:3 T:4 T:5 T:10 SIGNOFF ERR $
+//@   trace_ensures waitErr != nil && old(scp.parent) == nil : ^T:9 WAIT T:6 T:7 T:8 T:10 ERR $
+//@   trace_ensures waitErr != nil && old(scp.parent) != nil : ^T:9 WAIT T:6 T:7 T:8 T:10 SIGNOFF ERR $
+//@   ensures err == finalErr
+//@   ensures old(!scp.closed) && scp.closed
+//@   at_call Trigger requires $recv == old(scp.EventScope) && $1 != nil
+//@   at_call appendError requires $0 == scp
+//@   at_call DoneTask requires $recv == old(scp.parent)
+//@   panics_if scp.closed
+//@   trace_panics true : ^$
+
+// the error list handed to the context is exactly the non-nil errors, then the Error event fires
+//@ func (*Scope).appendError [C11 C12]
+//@   requires scp.ContextScope != nil && scp.EventScope != nil
+//@   modifies *
+//@   loop 1 invariant 0 <= i && i <= $i + 1 && -1 <= $i && $i < len(errs) && len(filtred) == len(errs)
+//@   loop 1 invariant forall(k, 0 <= k && k < i ==> filtred[k] != nil)
+//@   loop 1 step $i == prev($i) + 1 && (errs[$i] != nil ==> i == prev(i) + 1 && filtred[prev(i)] == errs[$i]) && (errs[$i] == nil ==> i == prev(i))
+//@   loop 1 step forall(k, 0 <= k && k < prev(i) ==> filtred[k] == prev(filtred[k]))
+//@   trace AppendError as APPEND
+//@   trace Trigger as T:$0
+//@   trace_ensures true : ^(APPEND T:2 APPEND )?$
+
+// Wait returns the scope's error state after every registered task and child is done
+//@ func (*Scope).Wait [C11]
+//@   requires scp.ContextScope != nil
+//@   trace (*WaitGroup).Wait as WGWAIT
+//@   trace (*Scope).Err as ERR bind e
+//@   trace_ensures true : ^WGWAIT ERR $
+//@   ensures result == e
+
+// task accounting: a task is added only while the scope is not done
+//@ func (*Scope).AddTasks [C11 C12]
+//@   requires scp.ContextScope != nil
+//@   trace IsDone as ISDONE bind done
+//@   trace (*WaitGroup).Add as WGADD
+//@   trace_ensures done : ^ISDONE $
+//@   trace_ensures !done : ^ISDONE WGADD $
+//@   ensures done <==> err != nil
+//@   at_call (*WaitGroup).Add requires $1 == delta
+
+// a child registers one task on its parent and remembers the parent only if that succeeded;
+// without an explicit context it shares the parent's
+//@ func NewChild [C11 C12]
+//@   requires parent != nil
+//@   trace AddTasks as ADD bind addErr
+//@   trace BaseContextScope as BCS bind bcs
+//@   at_call AddTasks requires $0 == 1
+//@   trace_ensures true : ^ADD .*$
+//@   ensures typeis(result, "*Scope") && !as(result, "*Scope").closed
+//@   ensures addErr == nil ==> as(result, "*Scope").parent == parent
+//@   ensures addErr != nil ==> as(result, "*Scope").parent == nil
+//@   ensures params.ContextScope == nil ==> as(result, "*Scope").ContextScope == bcs
+//@   ensures params.ContextScope != nil ==> as(result, "*Scope").ContextScope == params.ContextScope
+
+// a root scope without an explicit context gets a fresh one
+//@ func New [C11 C16]
+//@   trace contextscope.New as NEWCTX bind ctx
+//@   ensures typeis(result, "*Scope") && as(result, "*Scope").parent == nil && !as(result, "*Scope").closed
+//@   ensures params.ContextScope == nil ==> as(result, "*Scope").ContextScope == ctx
+//@   ensures params.ContextScope != nil ==> as(result, "*Scope").ContextScope == params.ContextScope
+//@   trace_ensures params.ContextScope == nil : ^NEWCTX $
+//@   trace_ensures params.ContextScope != nil : ^$
+
+// kill / stop / append: refused loudly on a closed scope, otherwise forwarded to the context
+//@ func (*Scope).Kill [C11 C12]
+//@   requires scp.ContextScope != nil && scp.EventScope != nil
+//@   trace ContextScope.Kill as KILL
+//@   trace Trigger as T:$0
+//@   trace_ensures true : ^KILL T:0 $
+//@   panics_if scp.closed
+//@ func (*Scope).Stop [C11 C12]
+//@   requires scp.ContextScope != nil && scp.EventScope != nil
+//@   trace ContextScope.Stop as STOP
+//@   trace Trigger as T:$0
+//@   trace_ensures true : ^STOP T:1 $
+//@   panics_if scp.closed
+//@ func (*Scope).AppendError [C11 C12]
+//@   requires scp.ContextScope != nil && scp.EventScope != nil
+//@   at_call appendError requires $0 == scp && $1 == errs
+//@   panics_if scp.closed
